@@ -449,7 +449,11 @@ def same(a, b):
         if not (b and b[0] == "s"):
             return False
         x, y = a[1], b[1]
-        return x == y or (x != x and y != y) or abs(x - y) <= 1e-12 * max(1.0, abs(x), abs(y))
+        if x == y or (x != x and y != y):
+            return True
+        if x in (float("inf"), float("-inf")) or y in (float("inf"), float("-inf")):
+            return False              # an infinity equals only itself (a huge finite replacement value is a different answer)
+        return abs(x - y) <= 1e-12 * max(1.0, abs(x), abs(y))
     if isinstance(a, tuple) and len(a) == 3 and isinstance(a[2], list):
         return a[0] == b[0] and a[1] == b[1] and all(same(("s", x), ("s", y)) for x, y in zip(a[2], b[2]))
     if isinstance(a, tuple):
